@@ -723,7 +723,8 @@ class Exec(ExprMixin, CallMixin):
                     self.block(st.orelse, fr)
                     return
             raise OutsideSubset(f"loop #{ordn} of {fr.finfo.qualname}: symbolic range longer than 3 without an invariant (stop = {str(z3.simplify(stop))[:120]})")
-        if spec is None:
+        if spec is None or not isinstance(spec, LoopSpec):
+            # (a contract written for a comprehension at this ordinal does not fit a for statement: the code was restructured)
             raise OutsideSubset(f"loop #{ordn} of {fr.finfo.qualname} over an abstract sequence has no invariant")
         self.abstract_loop(st, fr, spec, ordn, it)
 
